@@ -346,6 +346,8 @@ class Executor:
         the step fails instead of being scheduled for another execution attempt.
         """
         self.scheduler.record_run_started(step.i)
+        # A note about an earlier command of this step says nothing about the one that starts now.
+        self.workflow.declared_again.discard(step.i)
         run, new_hash = await self._new_run(job_i, step, inp_hashes, env_deps)
         if new_hash is None:
             # Step failed early due to unexpected input changes, error already reported.
